@@ -168,9 +168,8 @@ Print Assumptions c19_model_run_is_sys_run.
         free_ordinals, compact; I_b itself is imported by C20/C22 and was left unchanged);
      2. frame_ok's per-operation attribution (a freed address is named by the running release; a taken one
         carries the running assign's handle and attributes): a post-condition per program on the written value;
-     3. handles_agree's side conditions that no stored handle is empty or has a zero count (invariant on handle
-        values: hinc with n > 0, hdec removing entries that reach 0);
-     4. boolean reflection of the above along the observation list (os_taken / os_seen bookkeeping).
+     3. boolean reflection of (a)-(c) along the observation list (os_taken / os_seen bookkeeping).
+   Clause (d) IS proved as the boolean the oracle evaluates: c19_model_meets_spec_handles below.
    The conjunction below is what IS proved, packaged for one run. *)
 Theorem c19_model_meets_spec_partial : forall cf fx clients evs,
   cf_count_requested cf = false -> cf_aip_leak cf = false -> cf_stale_cache cf = false -> cf_bsize cf <> O ->
@@ -191,3 +190,15 @@ Theorem c19_model_meets_spec_partial : forall cf fx clients evs,
      forall h c, hcnt_of (sy_store y) h c = alloc_of (sy_store y) h c).
 Proof. exact model_meets_spec_partial. Qed.
 Print Assumptions c19_model_meets_spec_partial.
+
+(* Clause (d) of the oracle, exactly as evaluated by Spec.ok_trace: whenever every client has completed (within the
+   retry budget), Spec.handles_agree accepts the model's datastore: every handle/block count pair agrees, no stored
+   handle is empty or has a zero entry, every block a handle names exists. *)
+Theorem c19_model_meets_spec_handles : forall cf fx,
+  cf_count_requested cf = false -> cf_aip_leak cf = false -> cf_stale_cache cf = false -> cf_bsize cf <> O ->
+  forall clients evs B,
+  Forall (fun hc => Forall (wf_op cf) (snd hc)) clients -> within_budget cf fx clients evs B ->
+  Forall (fun c => exists l, c = CRun (Ret l)) (sy_clients (sys_run (sys0 cf fx true clients) evs)) ->
+  handles_agree (store_dump (sy_store (sys_run (sys0 cf fx true clients) evs))) = true.
+Proof. exact oracle_handles_agree. Qed.
+Print Assumptions c19_model_meets_spec_handles.
